@@ -260,7 +260,7 @@ def rule_r3(rep, repo):
                               f"method uses self.{prop} but does not first fix the inferred scale from its "
                               f"argument on every path: the result depends on which method was called first",
                               f.loc())
-    rep.floor("methods using an inferred scale", n_use, 10)
+    rep.floor("methods using an inferred scale", n_use, 3)
 
 
 def rule_r5(rep, repo):
